@@ -53,7 +53,7 @@ func isSentinel(err error) bool {
 // outcome, path, counters and executed result against the reference engine.
 func famFallback(sc *scn.Scenario, em func(vt.Ev)) {
 	q := sc.Query()
-	runtime.GOMAXPROCS(sc.CfgInt("procs", 4))
+	runtime.GOMAXPROCS(sc.Procs())
 	em(vt.Ev{"ev": "sc", "id": sc.ID, "fam": sc.Fam, "q": q, "start": sc.Start, "end": sc.End, "step": sc.Step, "lb": sc.LB, "qlb": sc.QLB, "tickms": sc.TickMs, "data": []any{}})
 	ref := promql.NewEngine(run.PromOpts(sc.Dur(sc.LB)))
 	rq, rerr := run.Create(ref, run.Store(sc), sc)
